@@ -470,6 +470,10 @@ func evalImage(c *core.Ctx, r *core.Result, base string, ii int, im *image, hist
 			}
 		}
 	}
+	if im.Inside && im.Kind != "process" && im.Op != "open" && len(im.before.Msgs) > 1 && r.WantSample() {
+		r.Sample(map[string]interface{}{"store": "file", "operation": im.Op, "crash_point": im.Step + "(" + im.File + ")", "image": im.Kind, "cut_after_bytes": im.Cut, "in_flight_write_bytes": im.WriteN,
+			"model_before": mstr(im.before), "model_after": mstr(im.after), "recovered": fmt.Sprintf("sender=%d target=%d messages=%d", ns, nt, len(msgs))})
+	}
 	// further operations on the recovered store
 	cur := storelab.NewModel(timeZero)
 	cur.Sender, cur.Target = ns, nt
